@@ -38,10 +38,12 @@ func verifAttackSetup(N int, maxW uint64) (*Attacker, *verifPacer, Targeter) {
 		verif_ghost_add("released", 1)
 	})
 	verif_stub("(*github.com/tsenart/vegeta/v12/lib.Attacker).hit", func(a *Attacker, tr Targeter, atk *attack) *Result {
+		// the counters change atomically with the reception of the tick
 		seq := verif_ghost_add("started", 1) - 1
-		// C04: at no moment have more hits started than the pacer has released
-		verif_assert(seq+1 <= verif_ghost_add("released", 0), "C04.no-hit-starts-before-its-wait-was-slept")
 		busy := verif_ghost_add("busy", 1)
+		released := verif_ghost_add("released", 0)
+		// C04: at no moment have more hits started than the pacer has released
+		verif_assert(seq+1 <= released, "C04.no-hit-starts-before-its-wait-was-slept")
 		verif_assert(busy <= int64(a.maxWorkers), "C03.in-flight-never-exceeds-max-workers")
 		res := &Result{Seq: uint64(seq)}
 		if verif_nondet_bool("targeter_fails") {
@@ -111,7 +113,7 @@ func verif_harness_C02_attack() {
 // counter, and the number of worker goroutines can never exceed the modelled
 // instances (= the largest max-workers value), which the "cut" query shows.
 //
-//verif:harness engine=gobmc param.N=1..1 unwind=16 replay=none bmctimeout=1500 queries=cut,bad thorough.bmctimeout=6000
+//verif:harness engine=gobmc param.N=1..1 unwind=16 replay=none bmctimeout=1500 queries=cut,bad,growth:_attack_:busy:n_max_workers_0 thorough.bmctimeout=6000
 func verif_harness_C03_attack() {
 	verifAttackBMC()
 }
@@ -124,10 +126,24 @@ func verif_harness_C04_attack() {
 	verifAttackBMC()
 }
 
-func verifAttackBMC() {
+// C03 — the cap itself with more released hits than the cap allows: max-workers
+// is 1 (initial workers 0..2, so the clamp matters), two hits are released, and
+// at most one may be in flight at any instant.
+//
+//verif:harness engine=gobmc param.N=2..2 unwind=16 replay=none bmctimeout=1500 queries=cut,bad,growth:_attack_:busy:n_max_workers_0 thorough.bmctimeout=6000
+func verif_harness_C03_cap_one() {
+	verifAttackBMCWith(1)
+}
+
+func verifAttackBMC() { verifAttackBMCWith(0) }
+
+func verifAttackBMCWith(fixedMax uint64) {
 	N := verif_param("N")
 	W := uint64(2)
 	a, pacer, tr := verifAttackSetup(N, W)
+	if fixedMax > 0 {
+		verif_assume(a.maxWorkers == fixedMax)
+	}
 	du := time.Duration(verif_nondet_i64("duration"))
 	verif_assume(du > -1<<14 && du < 1<<14)
 	pacer.du = du
